@@ -18,6 +18,9 @@ type gen struct {
 	// boost (history cases): field resolvers on composite results are selected much more often, so
 	// that most operations have chains of dependent resolve RPCs. false = the original rates.
 	boost bool
+	// numIDs (ID-encoding cases): an ID value that is a decimal integer is mostly written as a
+	// number (Int literal / JSON number). false = always a string, no extra random draw.
+	numIDs bool
 	// features of the generated operation (evidence)
 	feat map[string]bool
 }
@@ -81,7 +84,7 @@ func (g *gen) value(t *gast.Type, depth int) *val {
 	case "String":
 		return &val{kind: vString, s: stringPool[g.r.IntN(len(stringPool))]}
 	case "ID":
-		return &val{kind: vString, s: idPool[g.r.IntN(len(idPool))]}
+		return g.idValue(idPool[g.r.IntN(len(idPool))])
 	case "Int":
 		return &val{kind: vInt, s: intPool[g.r.IntN(len(intPool))]}
 	case "Float":
@@ -90,6 +93,16 @@ func (g *gen) value(t *gast.Type, depth int) *val {
 		return &val{kind: vBool, b: g.chance(0.5)}
 	}
 	return &val{kind: vNull}
+}
+
+func (g *gen) idValue(s string) *val {
+	v := &val{kind: vString, s: s}
+	if g.numIDs {
+		if _, err := strconv.ParseUint(s, 10, 31); err == nil && g.chance(0.75) {
+			v.num = true
+		}
+	}
+	return v
 }
 
 func (g *gen) args(fd *gast.FieldDefinition) []argv {
@@ -451,7 +464,7 @@ func (g *gen) representations(types []string, need map[string]*reqSel, n int) *v
 		t := types[g.r.IntN(len(types))]
 		obj := &val{kind: vObject}
 		obj.fields = append(obj.fields, kv{"__typename", &val{kind: vString, s: t}})
-		obj.fields = append(obj.fields, kv{"id", &val{kind: vString, s: idPool[g.r.IntN(4)]}})
+		obj.fields = append(obj.fields, kv{"id", g.idValue(idPool[g.r.IntN(4)])})
 		body := g.reqObject(t, need[t], false)
 		for _, f := range body.fields {
 			if f.k == "id" {
